@@ -697,6 +697,11 @@ pub fn case_cli(ctx: &mut Ctx, case: &Value) {
             let f = scratch_file(ctx, "game.dat", &content);
             args.extend(["-i".to_string(), f, "--input-format".to_string(), format.to_string()]);
         }
+        // an explicit format wins over a file name that suggests the other one
+        "file-wrong-ext-explicit" => {
+            let f = scratch_file(ctx, &format!("game.{}", if gambit { "json" } else { "efg" }), &content);
+            args.extend(["-i".to_string(), f, "--input-format".to_string(), format.to_string()]);
+        }
         _ => {
             let f = scratch_file(ctx, &format!("game.{}", ext), &content);
             args.extend(["-i".to_string(), f]);
@@ -961,7 +966,7 @@ fn gen_cli_case(ctx: &mut Ctx, i: u64, compare_library: bool) -> Value {
         "r": *ctx.rng.pick(&[0.0, 0.0, 0.05, 0.5]),
         "p": if compare_library { *ctx.rng.pick(&[1u64, 1, 1, 2]) } else { *ctx.rng.pick(&[0u64, 1, 2, 3]) },
         "c": clip,
-        "route": *ctx.rng.pick(&["file-ext", "file-ext", "stdin-auto", "stdin-explicit", "file-other-auto", "file-other-explicit"]),
+        "route": *ctx.rng.pick(&["file-ext", "file-ext", "stdin-auto", "stdin-explicit", "file-other-auto", "file-other-explicit", "file-wrong-ext-explicit"]),
         "outfile": ctx.rng.chance(0.25),
         "compare_library": compare_library,
     })
@@ -1082,6 +1087,75 @@ pub fn case_twins(ctx: &mut Ctx, case: &Value) {
     }
 }
 
+/// C12 at the command line: adding a constant to both players' payoffs of a Gambit file (constant
+/// sum 2c instead of 0) shifts both printed utilities by c and changes nothing else
+pub fn case_shift(ctx: &mut Ctx, case: &Value) {
+    ctx.record_current(case);
+    let (t, nseed) = case_ng(case);
+    let c = case["shift"].as_f64().unwrap_or(1.0);
+    let discount = case["discount"].as_str().unwrap_or("dcfr").to_string();
+    let iters = case["t"].as_u64().unwrap_or(5);
+    let mut run_one = |ctx: &mut Ctx, tree: &T, k: f64, tag: &str| -> Option<([Named; 2], [f64; 5])> {
+        let mut nrng = Rng::new(nseed);
+        let (ng, names) = name_game(&mut nrng, tree);
+        let content = to_efg_file(&mut nrng, &ng, &names, k, false, &EfgFeat::default()).text;
+        let f = scratch_file(ctx, &format!("shift-{}.efg", tag), &content);
+        let args: Vec<String> = vec!["-m".into(), "full".into(), "-d".into(), discount.clone(), "-t".into(), iters.to_string(), "-p".into(), "1".into(), "-i".into(), f];
+        let run = run_cfr(ctx, &args, None);
+        if run.status != Some(0) {
+            return None;
+        }
+        let v: Value = serde_json::from_str(&run.stdout).ok()?;
+        let it = intern(&ng, &names, 0.0, true);
+        let named = printed_named(&v, &it, &names, &it.tree).ok()?;
+        let num = |k: &str| v.get(k).and_then(|x| x.as_f64()).unwrap_or(f64::NAN);
+        Some((named, [num("player_one_utility"), num("player_two_utility"), num("player_one_regret"), num("player_two_regret"), num("regret")]))
+    };
+    let shifted = t.map_payoffs(&|p| p + c);
+    let (a, b) = match (run_one(ctx, &t, 0.0, "a"), run_one(ctx, &shifted, 2.0 * c, "b")) {
+        (Some(a), Some(b)) => (a, b),
+        _ => return ctx.fail_prop(case, "a valid Gambit file (or the same game with a constant added to all payoffs) was not solved".to_string()),
+    };
+    ctx.stat("cli_shift_pairs");
+    let sc = {
+        let mut pv = Vec::new();
+        shifted.payoffs(&mut pv);
+        t.payoffs(&mut pv);
+        pv.iter().fold(1.0f64, |x, y| x.max(y.abs()))
+    };
+    let d = named_diff(&a.0[0], &b.0[0]).max(named_diff(&a.0[1], &b.0[1]));
+    if !(d <= 1e-8) {
+        // a payoff shift changes the rounding of every regret: exact ties may be broken differently
+        let params = match discount.as_str() {
+            "vanilla" => Params::vanilla(),
+            "lcfr" => Params::lcfr(),
+            "cfr-plus" => Params::cfr_plus(),
+            "dcfr-prune" => Params::dcfr_prune(),
+            _ => Params::dcfr(),
+        };
+        let c1 = crate::solve_props::Cfg { method: "F".into(), params, iters, thr: 0.0, threads: 1, target: None, seed: 0 };
+        let mut nrng = Rng::new(nseed);
+        let (ng, names) = name_game(&mut nrng, &t);
+        let it = intern(&ng, &names, 0.0, true);
+        let margin = crate::solve_props::model_margin(ctx, &it.tree, &c1);
+        if margin < 1e-6 {
+            ctx.skipped_illcond += 1;
+            ctx.stat("cli_shift_ill_conditioned");
+        } else {
+            ctx.fail_prop(case, format!("adding {} to all payoffs changes the printed strategies by {:e} (conditioning margin {:e})", c, d, margin));
+        }
+        return;
+    }
+    let tol = 1e-9 * sc;
+    let (x, y) = (a.1, b.1);
+    if !(close_tol(x[0] + c, y[0], tol) && close_tol(x[1] + c, y[1], tol)) {
+        ctx.fail_prop(case, format!("adding {} to all payoffs: printed utilities ({:e}, {:e}) became ({:e}, {:e}), expected both shifted by the constant", c, x[0], x[1], y[0], y[1]));
+    }
+    if !(close_tol(x[2], y[2], tol) && close_tol(x[3], y[3], tol) && close_tol(x[4], y[4], tol)) {
+        ctx.fail_prop(case, format!("adding {} to all payoffs changes the printed regrets: {:?} vs {:?}", c, &x[2..], &y[2..]));
+    }
+}
+
 fn twin_output(ctx: &mut Ctx, case: &Value) -> Option<[Named; 2]> {
     let (t, nseed) = case_ng(case);
     let mut nrng = Rng::new(nseed);
@@ -1197,7 +1271,7 @@ pub fn c17(ctx: &mut Ctx) -> String {
         let good = if gambit { to_efg_file(&mut nrng, &ng, &names, k, false, &EfgFeat::default()).text } else { to_json_file(&ng, &names) };
         // (corrupted text, expected diagnostic category, "" when only rejection is required,
         //  "accept" when the text is a valid game)
-        let kind = ctx.rng.below(if gambit { 20 } else { 13 });
+        let kind = ctx.rng.below(if gambit { 22 } else { 13 });
         let mut other_format = false;
         let (bad, what, expect): (String, &str, &str) = if !gambit {
             match kind {
@@ -1263,6 +1337,7 @@ pub fn c17(ctx: &mut Ctx) -> String {
                 }
                 15 => (cross_player_name(&good), "one-name-for-infosets-of-both-players", "accept"),
                 16 => (outcome_arity(&good), "three-payoffs-behind-a-forward-reference", ""),
+                19 | 20 => (partial_name_clash(&good), "two-infosets-one-name-left-out-on-the-last-node", "duplicate-infosets"),
                 17 | 18 => {
                     let v = ctx.rng.below(8) as usize;
                     (cancelling_infinities(&good, v), "overflows-of-opposite-sign-along-one-path", "non-finite|gambit-error")
@@ -1512,6 +1587,51 @@ fn same_infoset_names(s: &str) -> String {
     } else {
         s.to_string()
     }
+}
+
+/// two infosets of player one share a name, and the node of one of them that comes LAST in the
+/// file leaves the name out (legal: a name may be given on some nodes of an infoset only) - the
+/// clash is there all the same
+fn partial_name_clash(s: &str) -> String {
+    let lines: Vec<&str> = s.lines().collect();
+    // named node lines of player one: (line, infoset number, name token)
+    let mut named: Vec<(usize, String, String)> = Vec::new();
+    for (i, l) in lines.iter().enumerate() {
+        if l.starts_with("p \"\" 1 ") {
+            let parts: Vec<&str> = l.splitn(6, ' ').collect();
+            if parts.len() == 6 && parts[4].starts_with('"') && parts[4].ends_with('"') && parts[4].len() > 2 {
+                named.push((i, parts[3].to_string(), parts[4].to_string()));
+            }
+        }
+    }
+    let mut by_num: BTreeMap<String, Vec<usize>> = BTreeMap::new();
+    for (i, n, _) in &named {
+        by_num.entry(n.clone()).or_default().push(*i);
+    }
+    // A: an infoset named on at least two nodes; B: any other named infoset
+    let a = match by_num.iter().find(|(_, v)| v.len() >= 2) {
+        Some((n, _)) => n.clone(),
+        None => return s.to_string(),
+    };
+    let b = match by_num.keys().find(|n| **n != a) {
+        Some(n) => n.clone(),
+        None => return s.to_string(),
+    };
+    let a_name = named.iter().find(|x| x.1 == a).map(|x| x.2.clone()).unwrap();
+    let a_last = *by_num[&a].last().unwrap();
+    let mut out = String::new();
+    for (i, l) in lines.iter().enumerate() {
+        let parts: Vec<&str> = l.splitn(6, ' ').collect();
+        if i == a_last {
+            out.push_str(&format!("p \"\" 1 {} {}\n", parts[3], parts[5]));
+        } else if by_num[&b].contains(&i) {
+            out.push_str(&format!("p \"\" 1 {} {} {}\n", parts[3], a_name, parts[5]));
+        } else {
+            out.push_str(l);
+            out.push('\n');
+        }
+    }
+    out
 }
 
 fn number_name_clash(s: &str) -> String {
